@@ -591,6 +591,12 @@ func c11Scenarios(cfg runCfg) []Scenario {
 		}
 		i++
 	}
+	for j := 0; j < cfg.n(48, 20); j++ {
+		if cfg.mine(i) {
+			out = append(out, Scenario{Family: "machine-cases", Seed: mix(cfg.seed, 11, 14, uint64(j))})
+		}
+		i++
+	}
 	for j := 0; j < cfg.n(16, 10); j++ {
 		if cfg.mine(i) {
 			out = append(out, Scenario{Family: "deep-abandon", Seed: mix(cfg.seed, 11, 12, uint64(j))})
@@ -799,6 +805,62 @@ func c11Run(t *testing.T, sc Scenario, res *Result) {
 		}
 		if v.failedReported {
 			res.inc("runs_with_failure")
+		}
+		return
+	}
+	if sc.Family == "machine-cases" {
+		// a never-failing state machine (a bounded buffer: put is not applicable when full, get when empty, both
+		// skip BEFORE drawing) is run for hundreds of test cases on the T that Check reuses; in every case at least
+		// one action is applicable in every state, so no case may be reported - whatever the cases before it did
+		r := newRng(sc.Seed, 0x3ac4)
+		capacity := r.between(1, 3)
+		extra := r.chance(1, 2)
+		cr := runBody(func(x *X) {
+			var buf []int
+			acts := map[string]func(*rapid.T){
+				"put": func(t *rapid.T) {
+					if len(buf) >= capacity {
+						t.Skip("full")
+					}
+					buf = append(buf, rapid.IntRange(0, 9).Draw(t, "v"))
+				},
+				"get": func(t *rapid.T) {
+					if len(buf) == 0 {
+						t.Skip("empty")
+					}
+					buf = buf[1:]
+				},
+				// looks at the head: not applicable to an empty buffer (skips before drawing), and gives up after
+				// drawing in half of its attempts (that step is rejected, nothing was applied)
+				"peek": func(t *rapid.T) {
+					if len(buf) == 0 {
+						t.Skip("empty")
+					}
+					if rapid.IntRange(0, 9).Draw(t, "interest") > 4 {
+						t.Skip("not interesting")
+					}
+				},
+				"": func(t *rapid.T) {
+					if len(buf) > capacity {
+						t.Fatalf("buffer holds %d of %d", len(buf), capacity)
+					}
+				},
+			}
+			if extra {
+				acts["clear"] = func(t *rapid.T) {
+					if len(buf) < capacity {
+						t.Skip("only a full buffer is cleared")
+					}
+					buf = buf[:0]
+				}
+			}
+			x.t.Repeat(acts)
+		}, runOpts{name: "C11machine", flags: map[string]string{"rapid.seed": fmt.Sprint(sc.Seed%1000003 + 1), "rapid.checks": "300", "rapid.steps": pick(r, []string{"5", "30", "100"}), "rapid.nofailfile": "true"}, noExit: true})
+		res.inc("checks_run")
+		res.inc("family:machine-cases")
+		res.nontrivial(fmt.Sprintf("machine-cases/%d/%v/%x", capacity, extra, sc.Seed&0xff))
+		if cr.tb.Failed() || cr.rp.Kind != "ok" {
+			res.violate(sc, "c11/machine-cases", fmt.Sprintf("a never-failing state machine (bounded buffer of %d, some action applicable in every state) was reported: %s", capacity, clip(cr.rp.Raw, 300)), map[string]any{"tb": cr.tb.brief()})
 		}
 		return
 	}
